@@ -604,6 +604,74 @@ fn run(ctx: &mut Ctx) {
             ctx.count("builds in run sequences across the map epochs");
         }
     });
+    // ---- events of 8 different run numbers (every map / calibration epoch) built on 8 threads at once, over and over:
+    // the slots of each must equal, bit for bit, those of the same event built alone beforehand (which the stages above
+    // compare with the oracle)
+    ctx.cases("concurrent", ctx.tier.pick(4, 32), |ctx, i, rng| {
+        let runs8: [u32; 8] = [u32::MAX, 9500, 10417, 10418, 11083, 11084, 11500, 12000];
+        for r in runs8 {
+            get(r, &mut cache);
+        }
+        let slot_digest = |me: &MainEvent| -> u64 {
+            let mut d = Digest::new();
+            d.u64(me.timestamp() as u64);
+            for (k, s) in vh::wire_signals(me).iter().enumerate() {
+                if let Some(s) = s {
+                    d.u64(k as u64);
+                    for x in s {
+                        d.f64(*x);
+                    }
+                }
+            }
+            for (c, col) in vh::pad_signals(me).iter().enumerate() {
+                for (r, s) in col.iter().enumerate() {
+                    if let Some(s) = s {
+                        d.u64((c * 1000 + r) as u64);
+                        for x in s {
+                            d.f64(*x);
+                        }
+                    }
+                }
+            }
+            d.0
+        };
+        let mut jobs: Vec<(u32, Banks, Option<u64>)> = Vec::new();
+        for r in runs8 {
+            let (cal, inv) = cache.get(&r).unwrap();
+            let ev = gen_event(rng, cal, None, None);
+            let banks = banks_of(inv, &ev, rng);
+            let alone = build(r, &banks).ok().map(|me| slot_digest(&me));
+            jobs.push((r, banks, alone));
+        }
+        let rounds = ctx.tier.pick(6usize, 20);
+        let bad: Vec<Option<String>> = std::thread::scope(|s| {
+            let hs: Vec<_> = jobs
+                .iter()
+                .map(|(r, banks, alone)| {
+                    let slot_digest = &slot_digest;
+                    std::thread::Builder::new()
+                        .stack_size(64 << 20)
+                        .spawn_scoped(s, move || {
+                            for round in 0..rounds {
+                                let got = build(*r, banks).ok().map(|me| slot_digest(&me));
+                                if got != *alone {
+                                    return Some(format!("run {} (round {}): slots digest {:?}, built alone {:?}", r, round, got, alone));
+                                }
+                            }
+                            None
+                        })
+                        .unwrap()
+                })
+                .collect();
+            hs.into_iter().map(|h| h.join().unwrap_or(Some("thread panicked".into()))).collect()
+        });
+        ctx.eval_n(8 * rounds as u64);
+        let _ = i;
+        match bad.into_iter().flatten().next() {
+            Some(b) => ctx.violation("the slots of an event depend on what other threads build at the same time", b, json!({})),
+            None => ctx.count_n("concurrent builds identical to the same event built alone", 8 * rounds as u64),
+        }
+    });
     // ---- hook-free variant: a single pulse identifies its slot through avalanches()
     let m = crate::sim::Model::load(&repo_root());
     ctx.cases("hook-free", ctx.tier.pick(64, 1024), |ctx, _i, rng| {
